@@ -84,14 +84,17 @@ def main():
     for key, items in sorted(groups.items()):
         traces = [[{k: e.get(k, 0) for k in EVK} for e in tr] for _, tr in items]
         sel = []
+        cut = {}        # trace index -> first event that ended outside the model vocabulary (judged only up to there)
         for i, ((ident, tr), t) in enumerate(zip(items, traces)):
-            if not _renderable([{k: v for k, v in e.items() if k not in ('res', 'xlo', 'xhi')} for e in t]) or \
-               any(not isinstance(e['res'], list) or any(isinstance(x, str) and (x.startswith('exc') or '?' in x) for x in _flat(e['res'])) for e in t):
-                badev = [e for e in tr if any(isinstance(x, str) and (x.startswith('exc') or '?' in x) for x in _flat(e['res']))]
-                ck.violation('%s: a call ended outside the model vocabulary: %s' % (ident, (badev or tr)[0]),
-                             dict(ident, kind='malformed-trace', event=(badev or tr)[0]))
-            else:
-                sel.append(i)
+            for j, e in enumerate(t):
+                odd = (not isinstance(e['res'], list) or
+                       any(isinstance(x, str) and (x.startswith('exc') or '?' in x) for x in _flat(e['res'])) or
+                       not _renderable([{k: v for k, v in e.items() if k not in ('res', 'xlo', 'xhi')}]))
+                if odd:
+                    cut[i] = j
+                    traces[i] = t[:j]
+                    break
+            sel.append(i)
         bad, summ = judge.judge('TraceEvict', [traces[i] for i in sel], constants=trace_constants(*key), chunk=300)
         ck.add_tlc(dict(generated=summ['generated'], distinct=summ['distinct'], wall_s=round(summ['wall_s'], 1)),
                    'TraceEvict sizes=(%s,%s) impl=%s: %d histories' % (key[0], key[1], key[2], len(sel)))
@@ -99,6 +102,12 @@ def main():
         ck.bump('trace_events', sum(len(traces[i]) for i in sel))
         ck.bump('sweeps_between_calls', sum(1 for i in sel for e in traces[i] if e['op'] in ('evict', 'evictall')))
         ck.bump('sweeps_inside_calls', sum(1 for i in sel for e in items[i][1] if 'sweep_at' in e))
+        rejected = {sel[ti] for (ti, line) in bad if summ.get('details', {}).get((ti, line), {}).get('why') != 'D18-taint'}
+        for i, j in cut.items():
+            if i not in rejected:       # everything before was as specified, then a call ended with something unforeseen
+                ident, tr = items[i]
+                ck.violation('%s: a call ended outside the model vocabulary: %s' % (ident, tr[j]),
+                             dict(ident, kind='malformed-trace', line=j, event=tr[j], history=[[x['op'], x['k'], x['v']] for x in tr[:j + 1]]))
         for (ti, line) in bad:
             ident, tr = items[sel[ti]]
             why = summ.get('details', {}).get((ti, line), {}).get('why')
